@@ -52,6 +52,7 @@ def run(prog, run):
     r4(prog, run)
     r5(prog, run)
     r6(prog, run)
+    r7(prog, run)
 
 
 def r1(prog, run):
@@ -562,3 +563,66 @@ def r6(prog, run):
                                                                                                      ', '.join(sorted(f.fmt(c, inline=False)[:40] for c, pol in f.atomic_assertions_at(i) if pol is True))[:120]))
         if not accepting:
             raise AnalysisBroken('C05.R6: no accepting return found in %s (parser restructured beyond what the rule follows)' % f.qname)
+
+
+def r7(prog, run):
+    rid = run.rule('C05.R7', 'the chooser sees every mechanism the server offered: the list handed to initSaslAuthentication / chooseMechanism is the offered list itself (a parameter, '
+                             'a field or accessor of the stream feature), or a local that starts as the offered list and is only extended (FAST mechanisms appended) - never '
+                             'replaced, emptied or filled only under a condition', floor=2)
+    ADD = ('append', 'push_back', 'emplace_back', 'operator+=', 'operator<<', 'insert', 'prepend', 'push_front', 'reserve')
+    targets = ('initSaslAuthentication', 'chooseMechanism')
+    seen = 0
+    for f in prog.fns.values():
+        if not f.file.endswith('QXmppSaslManager.cpp') or f.raw.get('dependent'):
+            continue
+        for i, n in f.calls():
+            if f.cname(n).split('::')[-1] not in targets or len(n.get('args', [])) < 2:
+                continue
+            seen += 1
+            run.instance(rid)
+            a = f.nodes[f.skip(n['args'][1])]
+
+            def offered(x):
+                """the expression is rooted at a parameter (the offered list, or a member / accessor of the stream feature)"""
+                m = f.nodes[f.skip(x)]
+                hops = 0
+                while m['k'] in ('mem', 'call') and hops < 4:
+                    nxt = m.get('base') if m['k'] == 'mem' else (m.get('obj') if m.get('obj') is not None else (m.get('args') or [None])[0])
+                    if nxt is None:
+                        return False
+                    m = f.nodes[f.skip(nxt)]
+                    hops += 1
+                return m['k'] == 'var' and m.get('vk') == 'param'
+            if a['k'] != 'var' or a.get('vk') != 'local':
+                if offered(n['args'][1]):
+                    run.ok(rid, f.loc(i), '%s: the offered list is passed on as it is' % f.outer_name().split('::')[-1])
+                else:
+                    run.violation(rid, '%s#candidates-not-offered' % f.outer_name(), f.loc(i), 'the mechanisms handed to the chooser (%s) are not the list offered by the server' % f.fmt(n['args'][1])[:60])
+                continue
+            decl = a['decl']
+            d = f.defs().get(decl) or {}
+            problems = []
+            if d.get('init') is None or not offered(d['init']):
+                problems.append('it does not start as the offered list')
+            for j, m in f.all_nodes('assign'):
+                if f.nodes[f.skip(m['l'])].get('decl') == decl and f.pos(j) and not f.node_dominates(i, j):
+                    problems.append('it is assigned again at line %s' % m.get('ln'))
+            for j, m in f.calls():
+                tgt = None
+                if m.get('obj') is not None and f.nodes[f.skip(m['obj'])].get('decl') == decl and f.nodes[f.skip(m['obj'])]['k'] == 'var':
+                    tgt = (f.sym(m) or {}).get('name')
+                elif m.get('op') and m.get('opargs') and f.nodes[f.skip(m['opargs'][0])].get('decl') == decl and f.nodes[f.skip(m['opargs'][0])]['k'] == 'var':
+                    tgt = 'operator' + m['op']
+                if tgt is None or (f.sym(m) or {}).get('const'):
+                    continue
+                if tgt in ('operator=',) or tgt in ('clear', 'erase', 'remove', 'removeAll', 'removeOne', 'removeAt', 'removeIf', 'takeFirst', 'takeLast', 'takeAt', 'pop_back',
+                                                    'pop_front', 'resize', 'swap', 'assign', 'removeFirst', 'removeLast'):
+                    problems.append('it is %s at line %s' % ('replaced' if tgt in ('operator=', 'assign', 'swap') else 'shrunk (%s)' % tgt, m.get('ln')))
+            if problems:
+                run.violation(rid, '%s#candidates-incomplete' % f.outer_name(), f.loc(i),
+                              'the list handed to the chooser is not "everything the server offered, possibly extended": %s - a mechanism the server offers and the user permits can be '
+                              'missing from the selection (wrong choice or a mechanism-mismatch error)' % '; '.join(sorted(set(problems))))
+            else:
+                run.ok(rid, f.loc(i), '%s: local copy of the offered list, only extended' % f.outer_name().split('::')[-1])
+    if seen < 2:
+        raise AnalysisBroken('C05.R7: callers of initSaslAuthentication / chooseMechanism not found')
